@@ -1,7 +1,7 @@
 (* Agents.v - executable model of local delivery in dtn7-go (property C07):
    pkg/agent  MuxAgent (children, fan-out by Recipients), RestAgent (clients / mailbox maps,
               receiveBundleMessage, Endpoints, register / unregister / fetch), WebSocketAgent
-              (a nested mux of connected clients), PingAgent, a generic agent with static endpoints
+              (a nested mux of connected clients, registered or not yet), PingAgent, a generic agent with static endpoints
    pkg/routing AgentManager.HasEndpoint / Deliver, Core.HasEndpoint, Core.dispatching,
               Core.localDelivery (report / constraint logic).
    The model describes the code *after* the three fix: commits (Range callbacks return true,
@@ -65,7 +65,18 @@ Inductive ag_agent :=
 | AMock (es : list ag_eid)                               (* static endpoint list (mock agents) *)
 | APing (e : ag_eid)                                     (* PingAgent *)
 | ARest (cl : list (N * ag_eid)) (mb : list (N * list abundle))   (* clients, mailbox by uuid *)
-| AWs (cl : list (N * ag_eid)).                          (* clientMux.children: connected, registered clients *)
+| AWs (cl : list (N * option ag_eid)).                   (* clientMux.children: connected clients in connection
+                                                            order; None = the client has not registered an endpoint
+                                                            (webAgentClient.endpoint is the zero EndpointID) *)
+
+(* the connected clients that have registered an endpoint, in connection order:
+   webAgentClient.Endpoints() is nil for the others *)
+Fixpoint ag_ws_reg (cl : list (N * option ag_eid)) : list (N * ag_eid) :=
+  match cl with
+  | [] => []
+  | (c, Some e) :: r => (c, e) :: ag_ws_reg r
+  | (_, None) :: r => ag_ws_reg r
+  end.
 
 Inductive ag_recipient :=
 | RMock (a : N) | RPing (a : N) | RRest (a u : N) | RWs (a c : N).
@@ -97,6 +108,9 @@ Fixpoint ag_hands_to (r : ag_recipient) (outs : list ag_output) : list abundle :
   end.
 
 Definition ag_is_sent (o : ag_output) : bool := match o with AOSent _ _ => true | _ => false end.
+(* evidence of a local delivery: a hand-over, a "delivered" report, the release of the retention constraint *)
+Definition ag_is_evidence (o : ag_output) : bool :=
+  match o with AOHand _ _ | AOReport _ | AORelease _ => true | _ => false end.
 
 Record ag_state := ag_mk_st {
   ast_node : ag_eid;                 (* Core.NodeId *)
@@ -111,7 +125,7 @@ Definition ag_agent_eids (orc : ag_oracle) (site : nat) (a : N) (g : ag_agent) :
   | AMock es => es
   | APing e => [e]
   | ARest cl _ => map snd (ag_permute (orc a site) cl)      (* RestAgent.Endpoints: Range *)
-  | AWs cl => map snd cl                                    (* MuxAgent.Endpoints of the clients *)
+  | AWs cl => map snd (ag_ws_reg cl)                        (* MuxAgent.Endpoints of the clients *)
   end.
 Definition ag_mux_eids (orc : ag_oracle) (site : nat) (ch : list (N * ag_agent)) : list ag_eid :=
   flat_map (fun p => ag_agent_eids orc site (fst p) (snd p)) ch.
@@ -134,7 +148,7 @@ Definition ag_registered (ch : list (N * ag_agent)) (r : ag_recipient) (e : ag_e
     end
   | RWs a c =>
     match ag_get a ch with
-    | Some (AWs cl) => match ag_get c cl with Some e' => ag_eid_eqb e e' | None => false end
+    | Some (AWs cl) => match ag_get c cl with Some (Some e') => ag_eid_eqb e e' | _ => false end
     | _ => false
     end
   end.
@@ -162,7 +176,7 @@ Definition ag_agent_receive (orc : ag_oracle) (a : N) (g : ag_agent) (b : abundl
     (ARest cl (fold_left (fun m u => ag_mb_put u b m) (map fst hit) mb),
      map (fun p => AOHand (RRest a (fst p)) b) hit)
   | AWs cl =>
-    (g, map (fun p => AOHand (RWs a (fst p)) b) (filter (ag_dst_match b) cl))
+    (g, map (fun p => AOHand (RWs a (fst p)) b) (filter (ag_dst_match b) (ag_ws_reg cl)))
   end.
 
 (* MuxAgent.handle: every child whose Endpoints() contain a recipient gets the message *)
@@ -210,6 +224,9 @@ Inductive ag_event :=
 | AERestFetch (a u : N)
 | AEWsConnect (a c : N) (e : ag_eid)      (* connector dials and registers e; label c is fresh *)
 | AEWsDisconnect (a c : N)
+| AEWsDial (a c : N)                      (* a client connects and does not register (yet); label c is fresh *)
+| AEWsRegister (a c : N) (oe : option ag_eid)   (* a connected client sends a register message; None = the
+                                             endpoint does not parse *)
 | AEDeliver (b : abundle) (orc : ag_oracle). (* a bundle arrives at the Core *)
 
 Definition ag_agent_initial (g : ag_agent) : bool :=
@@ -254,13 +271,35 @@ Definition ag_step (s : ag_state) (ev : ag_event) : option (ag_state * list ag_o
     | Some (AWs cl) =>
       match ag_get c cl with
       | Some _ => None
-      | None => Some (ag_set_ch s (ag_set a (AWs (cl ++ [(c, e)])) (ast_ch s)), [])
+      | None => Some (ag_set_ch s (ag_set a (AWs (cl ++ [(c, Some e)])) (ast_ch s)), [])
       end
     | _ => None
     end
   | AEWsDisconnect a c =>
     match ag_get a (ast_ch s) with
     | Some (AWs cl) => Some (ag_set_ch s (ag_set a (AWs (ag_del c cl)) (ast_ch s)), [])
+    | _ => None
+    end
+  | AEWsDial a c =>
+    match ag_get a (ast_ch s) with
+    | Some (AWs cl) =>
+      match ag_get c cl with
+      | Some _ => None
+      | None => Some (ag_set_ch s (ag_set a (AWs (cl ++ [(c, None)])) (ast_ch s)), [])
+      end
+    | _ => None
+    end
+  | AEWsRegister a c oe =>
+    (* handleIncomingRegister: the endpoint is set when none is present and the new one parses; in
+       every other case the error is acknowledged and handleConn returns: the client is shut down
+       and leaves the multiplexer *)
+    match ag_get a (ast_ch s) with
+    | Some (AWs cl) =>
+      match ag_get c cl, oe with
+      | None, _ => None
+      | Some None, Some e => Some (ag_set_ch s (ag_set a (AWs (ag_set c (Some e) cl)) (ast_ch s)), [])
+      | Some _, _ => Some (ag_set_ch s (ag_set a (AWs (ag_del c cl)) (ast_ch s)), [])
+      end
     | _ => None
     end
   | AEDeliver b orc => Some (ag_deliver orc s b)
@@ -278,6 +317,15 @@ Fixpoint ag_run (s : ag_state) (h : list ag_event) : option (ag_state * list ag_
       | Some (s2, o2) => Some (s2, o1 ++ o2)
       end
     end
+  end.
+
+(* the events that register / unregister recipient r itself (every other event is somebody else's) *)
+Definition ag_ev_touches (ev : ag_event) (r : ag_recipient) : bool :=
+  match ev with
+  | AERegAgent a _ => match r with RMock a' | RPing a' | RRest a' _ | RWs a' _ => a =? a' end
+  | AERestRegister a u _ | AERestUnregister a u => ag_recipient_eqb r (RRest a u)
+  | AEWsConnect a c _ | AEWsDisconnect a c | AEWsDial a c | AEWsRegister a c _ => ag_recipient_eqb r (RWs a c)
+  | AERestFetch _ _ | AEDeliver _ _ => false
   end.
 
 Definition ag_init (node : ag_eid) (peers : list N) : ag_state := ag_mk_st node [] peers [].
